@@ -74,7 +74,12 @@ def arcCb : Callback Float := fun _ curr cmd args _ =>
     | .cubics l => pure (l.map (fun c => ('C', [c.c1.x, c.c1.y, c.c2.x, c.c2.y, c.p.x, c.p.y])))
   | _ => throw .valueError
 
-def arcsToCubics (d : String) := rewriteStr (walk arcCb) d
+/-- `arcs_to_cubics()`: when the data contains an arc, shorthand is spelled out first (a smooth curveto after an arc
+    uses the current point, which it could no longer tell once the arc is cubics) -/
+def arcsToCubics (d : String) : Except PyErr String :=
+  if d.toList.any (fun c => c == 'a' || c == 'A') then
+    expandShorthand d >>= fun d' => rewriteStr (walk arcCb) d'
+  else rewriteStr (walk arcCb) d
 
 /-- `subpaths()` -/
 def subpaths (d : String) : Except PyErr (List String) := do
